@@ -462,21 +462,99 @@ func runC17(c *core.Ctx) {
 			o.Fail("addEntry does not buffer the entry")
 			return
 		}
-		var guard *core.V
-		for _, bv := range g.BranchVertices() {
-			if bv.Cond.Expr != nil && conjunctSet(bv.Cond.Expr) == "key<=w.lastKey&&w.hasEntries" {
-				guard = bv
-				o.At(fn.Site(bv.AST, "order check"))
+		info := fn.Info()
+		key := paramObj(fn, "key")
+		var hasE, lastK ast.Expr
+		ast.Inspect(fn.Decl.Body, func(n ast.Node) bool {
+			if sel, ok := n.(*ast.SelectorExpr); ok {
+				switch sel.Sel.Name {
+				case "hasEntries":
+					if hasE == nil {
+						hasE = sel
+					}
+				case "lastKey":
+					if lastK == nil {
+						lastK = sel
+					}
+				}
 			}
-		}
-		if guard == nil {
+			return true
+		})
+		if key == nil || hasE == nil || lastK == nil {
 			o.Fail("no 'key <= lastKey' rejection (unsorted or duplicate keys would be written)")
 			return
 		}
-		o.Require(g.EdgeDominates(buf, core.EdgeRef{From: guard, Label: core.EdgeFalse}), "the entry is buffered without passing the order check")
-		src := c.Prog.Src(fn.Decl.Body)
-		o.Shape(strings.Contains(src, "w.lastKey=keyw.hasEntries=true"), "the previous key is not recorded")
-		o.Shape(strings.Contains(src, "iflen(w.pendingLeaf)>=maxChildren{"), "leaves are not completed at the fan-out bound")
+		// the facts on every path to the buffering, together with "there is a previous entry",
+		// imply key > lastKey (the test may be written directly, negated or through a named local)
+		kid := identUse(fn, key)
+		atoms := append([]core.Atom{}, g.DominatingAtoms(buf)...)
+		var rel []core.Atom
+		for _, a := range atoms {
+			if core.Mentions(info, a.Expr, key) || strings.Contains(core.ExprStr(a.Expr), "hasEntries") || strings.Contains(core.ExprStr(a.Expr), "lastKey") {
+				rel = append(rel, a)
+			}
+		}
+		// the whole conditions of the dominating branches, for tests that are not conjunctions of facts
+		for _, e := range g.DominatingEdges(buf) {
+			if e.From.Cond != nil && e.From.Cond.Expr != nil && isBoolExpr(info, e.From.Cond.Expr) {
+				rel = append(rel, core.Atom{Expr: e.From.Cond.Expr, Neg: e.Label == core.EdgeFalse})
+			}
+		}
+		rel = append(rel, core.Atom{Expr: hasE})
+		holds, counter, decided := c.Prog.Implies(core.Formula{Fn: fn, Atoms: rel}, core.Formula{Fn: fn, Atoms: []core.Atom{{Expr: &ast.BinaryExpr{X: kid, Op: token.GTR, Y: lastK}}}})
+		switch {
+		case !decided:
+			o.Unrec("the conditions under which addEntry buffers an entry were not decided: %s", counter)
+		case !holds:
+			o.Fail("no 'key <= lastKey' rejection (unsorted or duplicate keys would be written): the entry is buffered for %s", counter)
+			return
+		}
+		// the previous key and the flag are recorded on every path that buffers
+		recorded := map[string]bool{}
+		for _, v := range g.Vs {
+			as, ok := v.AST.(*ast.AssignStmt)
+			if !ok || len(as.Lhs) != len(as.Rhs) {
+				continue
+			}
+			for i, l := range as.Lhs {
+				sel, isSel := ast.Unparen(l).(*ast.SelectorExpr)
+				if !isSel || !(g.Dominates(v, buf) || !g.ReachFrom(buf, false, core.AvoidVs(v))[g.Exit]) {
+					continue
+				}
+				switch sel.Sel.Name {
+				case "lastKey":
+					if core.ObjOf(info, as.Rhs[i]) == key {
+						recorded["lastKey"] = true
+					}
+				case "hasEntries":
+					if tv, has := info.Types[as.Rhs[i]]; has && tv.Value != nil && tv.Value.String() == "true" {
+						recorded["hasEntries"] = true
+					}
+				}
+			}
+		}
+		o.Require(recorded["lastKey"] && recorded["hasEntries"], "the previous key is not recorded")
+		// a full leaf is completed at the fan-out bound
+		full := "none"
+		for _, cv := range callVerticesSuffix(g, ".completePendingLeaf") {
+			for _, a := range g.DominatingAtoms(cv.V) {
+				cmp, isCmp := a.AsCmp()
+				if !isCmp || !strings.Contains(strings.ReplaceAll(core.ExprStr(cmp.L), " ", ""), "len(w.pendingLeaf)") {
+					continue
+				}
+				if ro := core.ObjOf(info, cmp.R); ro != nil && ro.Name() == "maxChildren" && cmp.Op == token.GEQ {
+					full = "ok"
+				} else if full != "ok" {
+					full = "other"
+				}
+			}
+		}
+		switch full {
+		case "none":
+			o.Unrec("the test under which a full leaf is completed was not found")
+		case "other":
+			o.Fail("leaves are not completed at the fan-out bound")
+		}
 		o.Require(c.Prog.ConstInt(pk, "maxChildren") <= 64, "fan-out bound is %d", c.Prog.ConstInt(pk, "maxChildren"))
 	})
 	c.Check("C17-R3", pk+".WriteMap/sorted", "WriteMap sorts the keys before it feeds them to the writer (map order never reaches the output)", func(o *core.Ob) {
@@ -500,7 +578,63 @@ func runC17(c *core.Ctx) {
 				return false
 			}
 			k := core.CalleeKey(info, call)
-			return k == "slices.Sorted" || k == "slices.SortedFunc" || k == "slices.SortedStableFunc"
+			if k == "slices.Sorted" || k == "slices.SortedFunc" || k == "slices.SortedStableFunc" {
+				return true
+			}
+			// a helper of the package that sorts what it returns: every return hands back a
+			// local that a sort call was applied to on every path to that return
+			callee := core.Callee(info, call)
+			if callee == nil || callee.Pkg() == nil || callee.Pkg() != fn.Obj.Pkg() {
+				return false
+			}
+			hf := c.Prog.FuncOf(callee)
+			if hf == nil || hf.Decl.Body == nil {
+				return false
+			}
+			hg, hinfo := hf.Graph(), hf.Info()
+			rets := hg.Returns()
+			if len(rets) == 0 {
+				return false
+			}
+			for _, r := range rets {
+				rs := r.AST.(*ast.ReturnStmt)
+				if len(rs.Results) != 1 {
+					return false
+				}
+				if isC, okC := ast.Unparen(rs.Results[0]).(*ast.CallExpr); okC {
+					if ck := core.CalleeKey(hinfo, isC); ck == "slices.Sorted" || ck == "slices.SortedFunc" || ck == "slices.SortedStableFunc" {
+						continue
+					}
+				}
+				obj := core.ObjOf(hinfo, rs.Results[0])
+				if obj == nil {
+					return false
+				}
+				sortedHere := false
+				for _, v := range hg.Vs {
+					if v.AST == nil || !hg.Dominates(v, r) {
+						continue
+					}
+					for _, cs := range core.CallsIn(hinfo, v.AST, false) {
+						if isSortCall(cs.Key) && len(cs.Call.Args) >= 1 && core.ObjOf(hinfo, cs.Call.Args[0]) == obj {
+							// nothing is appended to it afterwards
+							clean := true
+							for _, d := range defVertices(hg, obj) {
+								if d != v && hg.PathExists(v, d, nil) && hg.PathExists(d, r, nil) {
+									clean = false
+								}
+							}
+							if clean {
+								sortedHere = true
+							}
+						}
+					}
+				}
+				if !sortedHere {
+					return false
+				}
+			}
+			return true
 		}
 		loops := 0
 		_ = g
@@ -1109,4 +1243,13 @@ func nodeRole(fn *core.Func, cl *ast.CompositeLit) (root, known bool) {
 		return false, false
 	}
 	return returned, true
+}
+
+func isBoolExpr(info *types.Info, e ast.Expr) bool {
+	t := info.TypeOf(e)
+	if t == nil {
+		return false
+	}
+	b, ok := t.Underlying().(*types.Basic)
+	return ok && b.Info()&types.IsBoolean != 0
 }
